@@ -16,6 +16,7 @@ import TlxVerif.Proofs.C08Spec
 import TlxVerif.Proofs.C08Checker
 import TlxVerif.Proofs.C08Exists
 import TlxVerif.Proofs.C08Select
+import TlxVerif.Proofs.C08Model
 import TlxVerif.Model.C08Msp
 namespace TlxVerif.C08
 
@@ -79,6 +80,20 @@ example : IsPartition (fun a b : Int => decide (a < b)) [[1, 2, 2, 2], [1, 1]] 2
   checker_sound strictWeak_intLt (allSorted_sound strictWeak_intLt (by decide)) (by decide)
 
 /-! ### the model -/
+
+/-- model component: `round_up_to_power_of_two` is modelled by a function that really returns the least
+power of two ≥ n, so the padded length `l = 2^k − 1 ≥ nmax` -/
+theorem model_roundUp_is_least_power_of_two (n : Nat) (hn : 1 ≤ n) :
+    ∃ k, roundUpPow2 n = 2 ^ k ∧ n ≤ 2 ^ k ∧ 2 ^ k < 2 * n :=
+  roundUpPow2_spec n hn
+
+/-- model component: `std::sort(sample, lcomp)` is determined — on pairs with distinct sequence numbers the
+insertion sort of the model returns the only `lcomp`-sorted permutation -/
+theorem model_sample_sort_determined {lt : Int → Int → Bool} (hlt : StrictWeak lt) (l : List Sample)
+    (hnd : (l.map (·.2)).Nodup) :
+    (sortBy (lcomp lt) l).Perm l ∧ (sortBy (lcomp lt) l).Pairwise (fun p q => lcomp lt p q = true) ∧
+    ∀ l' : List Sample, l'.Perm l → l'.Pairwise (fun p q => lcomp lt p q = true) → l' = sortBy (lcomp lt) l :=
+  sortBy_lcomp_spec hlt l hnd
 
 /-- the model's answer for `multisequence_partition`, accepted only when the proved checker accepts it -/
 def certifiedPartition (c : Ctx) (rank : Nat) : Option (List Nat) :=
